@@ -202,9 +202,8 @@ class RawAccessPoint(TransmissionControlObject):
         self.state.ESTABLISHED = True
 
     def __str__(self):
-        return "RAW {:2} ->  ?".format(self.addr
-                                       if self.addr is not None
-                                       else "None")
+        addr = self.addr  # may be unbound concurrently by link shutdown
+        return "RAW {:2} ->  ?".format(addr if addr is not None else "None")
 
     def setsockopt(self, option, value):
         if self.state.SHUTDOWN:
@@ -268,9 +267,10 @@ class LogicalDataLink(TransmissionControlObject):
         self.state.ESTABLISHED = True
 
     def __str__(self):
+        addr, peer = self.addr, self.peer  # may change concurrently
         return "LDL {addr:2} -> {peer:2}".format(
-                addr=self.addr if self.addr is not None else "None",
-                peer=self.peer if self.peer is not None else "None"
+                addr=addr if addr is not None else "None",
+                peer=peer if peer is not None else "None"
         )
 
     def setsockopt(self, option, value):
@@ -381,10 +381,11 @@ class DataLinkConnection(TransmissionControlObject):
         s = "DLC {addr:2} <-> {peer:2} {dlc.state} "
         s += "RW(R)={dlc.send_win} V(S)={dlc.send_cnt} V(SA)={dlc.send_ack} "
         s += "RW(L)={dlc.recv_win} V(R)={dlc.recv_cnt} V(RA)={dlc.recv_ack}"
+        addr, peer = self.addr, self.peer  # may change concurrently
         return s.format(
                 dlc=self,
-                addr=self.addr if self.addr is not None else "None",
-                peer=self.peer if self.peer is not None else "None"
+                addr=addr if addr is not None else "None",
+                peer=peer if peer is not None else "None"
         )
 
     def log(self, string):
